@@ -43,6 +43,10 @@ OBS = Box(-jnp.ones((2,)), jnp.ones((2,)))
 PKG = "/repo/src/lerax"
 
 
+def _is_set_expr(e):
+    return isinstance(e, (ast.Set, ast.SetComp)) or (isinstance(e, ast.Call) and isinstance(e.func, ast.Name) and e.func.id in ("set", "frozenset"))
+
+
 def _dotted(node):
     parts = []
     while isinstance(node, ast.Attribute):
@@ -106,6 +110,24 @@ def unit_frame_ast(S):
                         if hit:
                             offenders.append(f"{path}:{n.lineno} mutates its mutable default argument `{p.arg}` (shared across calls)")
                             break
+                # iteration over a set: the order of a set of strings is salted per process (PYTHONHASHSEED) - a hidden input of everything derived from that order
+                setnames = set()
+                for n in ast.walk(fnode):
+                    if isinstance(n, ast.Assign) and len(n.targets) == 1 and isinstance(n.targets[0], ast.Name) and _is_set_expr(n.value):
+                        setnames.add(n.targets[0].id)
+                is_set = lambda e: _is_set_expr(e) or (isinstance(e, ast.Name) and e.id in setnames)
+                for n in ast.walk(fnode):
+                    iters = []
+                    # only forms whose RESULT is ordered (a plain `for` over a set used for order-insensitive work, or a set comprehension, is harmless)
+                    if isinstance(n, (ast.ListComp, ast.DictComp, ast.GeneratorExp)):
+                        iters += [g.iter for g in n.generators]
+                    if isinstance(n, ast.Call) and isinstance(n.func, ast.Name) and n.func.id in ("zip", "list", "tuple", "enumerate", "iter", "next", "dict", "map"):
+                        iters += list(n.args)
+                    if isinstance(n, ast.Starred):
+                        iters.append(n.value)
+                    for it in iters:
+                        if is_set(it):
+                            offenders.append(f"{path}:{getattr(n, 'lineno', 0)} iterates over a set (order depends on the per-process hash salt): {ast.unparse(it)[:60]}")
                 for n in ast.walk(fnode):
                     if isinstance(n, ast.Global):
                         offenders.append(f"{path}:{n.lineno} global {','.join(n.names)}")
